@@ -147,6 +147,7 @@ def cases(tier, seed):
                     for k in ks:
                         yield {"space": "exhaustive", "letters": "".join(map(str, comb)), "vals": vt,
                                "how": how, "k": k}
+    yield from _seq_cases(tier, seed)
     n = 2600 if tier == "quick" else 22000
     for _ in range(n):
         nsteps = rng.choice((1, 1, 2, 2, 3, 4))
@@ -170,6 +171,7 @@ def shard_setup(tier, seed):
     import dask
 
     dask.config.set(scheduler="sync")
+    _private_tmp()
 
 
 def _frame(case):
@@ -807,6 +809,8 @@ def run_case(case, ctx):
 
     with warnings.catch_warnings():
         warnings.simplefilter("ignore")
+        if case.get("family") == "sequence":
+            return _run_sequence(case, ctx, dd)
         if case.get("space") == "exhaustive":
             return _run_exhaustive(case, ctx)
         return _run_random(case, ctx, dd)
@@ -875,3 +879,499 @@ def _safe_divs(ddf):
         return [repr(d) for d in ddf.divisions][:10]
     except Exception:  # noqa: BLE001
         return None
+
+
+# =============================================================================================
+# family "sequence": several division-computing operations on ONE base frame in ONE process
+# =============================================================================================
+# dask keeps per-process state between operations (the module-level ``divisions_lru`` of
+# dask_expr/_shuffle.py: quantile divisions, per-partition mins/maxes and the ``presorted`` verdict of a
+# (column expression, npartitions, ascending, upsample) request; ``mem_usages_lru`` of _repartition.py;
+# expression singletons with cached properties).  A single pipeline on a fresh frame never sees that state
+# being wrong.  This family issues several operations one after another on the SAME base collection (and on
+# equal-token rebuilt copies) and checks every result.
+SEQ_SHAPES = ("asc", "desc", "ascblk", "descblk", "rand", "overlap", "dups")
+SEQ_EVALS = ("npartitions", "divisions", "head", "persist", "optimize", "repr", "compute", "len", "none")
+SEQ_KDTYPES = ("int", "int", "float", "datetime", "str")
+# the operations of the complete ordered-pair space ("@" = the focus column of the case)
+PAIR_OPS = (
+    {"op": "sort_values", "col": "@", "asc": True, "np": None},
+    {"op": "sort_values", "col": "@", "asc": False, "np": None},
+    {"op": "set_index", "form": "plain", "col": "@", "np": None},
+    {"op": "set_index", "form": "npartitions", "col": "@", "np": "same"},
+    {"op": "set_index", "form": "npartitions", "col": "@", "np": "fewer"},
+    {"op": "set_index", "form": "divisions", "col": "@", "np": None},
+    {"op": "set_index", "form": "sorted", "col": "@", "np": None},
+    {"op": "shuffle", "col": "@", "np": None},
+    {"op": "unique", "col": "@", "np": 2},
+    {"op": "drop_duplicates", "col": "@", "np": 2},
+    {"op": "merge", "col": "@", "col2": "rand", "how": "inner"},
+    {"op": "set_index_repartition", "col": "@", "np": "more"},
+)
+
+
+def _seq_cases(tier, seed):
+    rng = random.Random(seed * 7919 + 4141)
+    # complete sub-space: every ordered pair of PAIR_OPS on the focus column of every shape
+    evs = ("npartitions", "head") if tier == "quick" else ("npartitions", "head", "persist", "compute")
+    for shape in (("asc", "desc", "descblk", "rand", "dups") if tier == "quick" else SEQ_SHAPES):
+        for i, a in enumerate(PAIR_OPS):
+            for j, b in enumerate(PAIR_OPS):
+                for e, ev in enumerate(evs):
+                    if tier == "quick" and (i + j) % len(evs) != e:
+                        continue          # quick: one evaluation mode per pair (alternating), thorough: all
+                    yield {"space": "exhaustive", "family": "sequence", "nrows": 12, "npart": 3, "kdtype": "int",
+                           "index": "range", "focus": shape,
+                           "steps": [dict(a, ev=ev, on="base"), dict(b, ev="divisions", on="base" if (i + j) % 2 else "copy")]}
+    n = 420 if tier == "quick" else 4200
+    for _ in range(n):
+        nrows = rng.choice((6, 9, 12, 12, 16, 20, 30, rng.randint(4, 40)))
+        npart = rng.choice((2, 3, 3, 4, 5))
+        focus = rng.choice(SEQ_SHAPES)
+        steps = []
+        for _s in range(rng.choice((2, 3, 4, 5, 6, 8))):
+            col = focus if rng.random() < 0.75 else rng.choice(SEQ_SHAPES)
+            steps.append(_seq_rand_step(rng, col, npart))
+        yield {"family": "sequence", "nrows": nrows, "npart": npart, "kdtype": rng.choice(SEQ_KDTYPES),
+               "index": rng.choice(("range", "range", "shuffled")), "focus": focus, "fseed": rng.randrange(2 ** 31),
+               "steps": steps}
+
+
+def _seq_rand_step(rng, col, npart):
+    ev = rng.choice(SEQ_EVALS)
+    on = rng.choice(("base", "base", "copy"))
+    np_ = rng.choice((None, None, "same", "fewer", "more", 1, 2))
+    k = rng.choice(("sort_values", "sort_values", "sort_values", "set_index", "set_index", "set_index", "set_index",
+                    "shuffle", "repartition", "unique", "drop_duplicates", "merge", "set_index_repartition",
+                    "set_index_loc"))
+    st = {"op": k, "col": col, "np": np_, "ev": ev, "on": on}
+    if k == "sort_values":
+        st["asc"] = rng.random() < 0.5
+        if rng.random() < 0.7:
+            st["np"] = None
+    elif k == "set_index":
+        st["form"] = rng.choice(("plain", "plain", "plain", "npartitions", "divisions", "sorted", "sort-false",
+                                 "upsample", "drop-false", "tasks"))
+        if st["form"] == "npartitions" and st["np"] is None:
+            st["np"] = "same"
+    elif k in ("unique", "drop_duplicates"):
+        st["np"] = rng.choice((2, 3, True))
+    elif k == "merge":
+        st["col2"] = rng.choice(("rand", "asc", "desc", "ascblk", "descblk"))
+        st["how"] = rng.choice(("inner", "outer", "left"))
+    elif k in ("repartition", "set_index_repartition"):
+        st["np"] = rng.choice(("fewer", "more", "same", 1, 2))
+    elif k == "set_index_loc":
+        st["r"] = rng.randrange(2 ** 31)
+    return st
+
+
+_SEQ_TMP = []
+
+
+def _private_tmp():
+    """private directory for the disk shuffle's partd files (one ``*.partd`` directory per disk shuffle is left
+    behind in the temporary directory), removed when the process ends"""
+    import atexit
+    import os
+    import shutil
+    import tempfile
+
+    import dask
+
+    if not _SEQ_TMP:
+        # (partd fsyncs every append: a tmpfs directory when there is one)
+        d = tempfile.mkdtemp(prefix="vf-c41partd-", dir="/dev/shm" if os.path.isdir("/dev/shm") and os.access("/dev/shm", os.W_OK) else None)
+        _SEQ_TMP.append(d)
+        atexit.register(shutil.rmtree, d, True)
+    dask.config.set(temporary_directory=_SEQ_TMP[0])
+
+
+def _dask_caches():
+    """the module-level caches of dask.dataframe that survive from one operation to the next"""
+    out = {}
+    try:
+        from dask.dataframe.dask_expr import _shuffle
+
+        out["divisions_lru"] = _shuffle.divisions_lru
+    except Exception:  # noqa: BLE001
+        pass
+    try:
+        from dask.dataframe.dask_expr import _repartition
+
+        out["mem_usages_lru"] = _repartition.mem_usages_lru
+    except Exception:  # noqa: BLE001
+        pass
+    return out
+
+
+def _kvalue(rank, kdtype):
+    """monotone map rank -> value of the key dtype"""
+    import pandas as pd
+
+    if kdtype == "int":
+        return [int(r) * 2 for r in rank]
+    if kdtype == "float":
+        return [float(r) * 0.5 - 3.0 for r in rank]
+    if kdtype == "datetime":
+        return list(pd.Timestamp("2023-02-01") + pd.to_timedelta([int(r) * 7 for r in rank], unit="min"))
+    return ["k%03d" % int(r) for r in rank]
+
+
+def _seq_frame(case, dd, extra=False):
+    """-> (pdf, build) ; build() makes an (equal-token) dask collection of pdf.  extra=True adds a column so that
+    every expression name (and with it every cache key) differs from the base frame's."""
+    import numpy as np
+    import pandas as pd
+    import dask
+
+    n, P = case["nrows"], case["npart"]
+    r = np.random.default_rng(case.get("fseed", 12345))
+    if case["index"] == "range":
+        idx = pd.RangeIndex(n, name="i")
+        kw = {"npartitions": P}
+    else:
+        idx = pd.Index(r.permutation(n).astype("int64") * 3, name="i")
+        kw = {"npartitions": P, "sort": False}
+    v0 = pd.DataFrame({"v": np.arange(n, dtype="int64")}, index=idx)
+    lens = [len(p) for p in dask.compute(*dd.from_pandas(v0, **kw).to_delayed(), scheduler="sync")]
+    bounds = np.cumsum([0] + lens)
+    pos = np.arange(n)
+    ranks = {"asc": pos.copy(), "desc": (n - 1 - pos)}
+    for name, src in (("ascblk", ranks["asc"]), ("descblk", ranks["desc"])):
+        a = src.copy()
+        for x, y in zip(bounds[:-1], bounds[1:]):
+            a[x:y] = r.permutation(a[x:y])
+        ranks[name] = a
+    ranks["rand"] = r.permutation(n)
+    a = pos.copy()
+    if len(lens) >= 2 and 0 < bounds[1] < n:
+        b = int(bounds[1])
+        a[b - 1], a[b] = a[b], a[b - 1]                      # the two neighbours of the first boundary swapped
+    ranks["overlap"] = a
+    ranks["dups"] = np.sort(r.integers(0, max(2, n // 2), n))  # ascending, duplicates (also across boundaries)
+    pdf = v0.copy()
+    for name in SEQ_SHAPES:
+        pdf["k_" + name] = _kvalue(ranks[name], case["kdtype"])
+    pdf["w"] = np.round(r.normal(size=n), 2)
+    if extra:
+        pdf["zz"] = 1
+
+    def build():
+        return dd.from_pandas(pdf.copy(), **kw)
+
+    return pdf, build, lens
+
+
+def _seq_np(v, P):
+    if v is None or v is True:
+        return v
+    if v == "same":
+        return P
+    if v == "fewer":
+        return max(1, P - 1)
+    if v == "more":
+        return P + 2
+    return int(v)
+
+
+def _seq_variant(st):
+    op = st["op"]
+    if op == "sort_values":
+        return "sort_values[%s%s]" % ("asc" if st["asc"] else "desc", "" if st.get("np") is None else "&npartitions")
+    if op == "set_index":
+        return "set_index[%s]" % st["form"]
+    if op in ("unique", "drop_duplicates"):
+        return "%s[split_out]" % op
+    if op in ("shuffle", "repartition", "set_index_repartition"):
+        return "%s[%s]" % (op, "default" if st.get("np") is None else "npartitions")
+    if op == "merge":
+        return "merge[set_index-both:%s]" % st["how"]
+    return op
+
+
+def _seq_build(st, ddf, ddf2, pdf, P):
+    """-> (dask result, pandas expectation, how to compare).  how: 'ordered' | 'multiset' | 'sorted-by:<col>' |
+    'set' ; raises _Skip when the step does not apply to this frame (generator side)."""
+    import pandas as pd
+
+    op = st["op"]
+    col = "k_" + st["col"]
+    np_ = _seq_np(st.get("np"), P)
+    tgt = ddf
+    if op == "sort_values":
+        kw = {} if np_ is None else {"npartitions": np_}
+        return (tgt.sort_values(col, ascending=st["asc"], **kw), pdf.sort_values(col, ascending=st["asc"], kind="stable"),
+                "sorted-by:%s:%s" % (col, "asc" if st["asc"] else "desc"))
+    if op == "set_index":
+        form = st["form"]
+        exp = pdf.set_index(col, drop=form != "drop-false")
+        if form == "plain":
+            return tgt.set_index(col), exp, "multiset"
+        if form == "drop-false":
+            return tgt.set_index(col, drop=False), exp, "multiset"
+        if form == "tasks":
+            return tgt.set_index(col, shuffle_method="tasks"), exp, "multiset"
+        if form == "upsample":
+            return tgt.set_index(col, upsample=2.0), exp, "multiset"
+        if form == "npartitions":
+            return tgt.set_index(col, npartitions=np_), exp, "multiset"
+        if form == "sort-false":
+            return tgt.set_index(col, sort=False), exp, "multiset"
+        if form == "sorted":
+            if not bool(pdf[col].is_monotonic_increasing):
+                raise _Skip("sorted=True needs a sorted column")
+            return tgt.set_index(col, sorted=True), exp, "ordered"
+        uniq = sorted(pd.unique(pdf[col]))
+        k = max(1, min(len(uniq) - 1, np_ or P))
+        cut = sorted({uniq[(len(uniq) - 1) * i // k] for i in range(k + 1)} | {uniq[0], uniq[-1]})
+        if len(cut) < 2:
+            cut = [uniq[0], uniq[-1]]
+        cut = [_plain(c) for c in cut]
+        return tgt.set_index(col, divisions=cut), exp, "multiset"
+    if op == "shuffle":
+        kw = {} if np_ is None else {"npartitions": np_}
+        return tgt.shuffle(col, **kw), pdf, "multiset"
+    if op == "repartition":
+        return tgt.repartition(npartitions=np_ or P + 1), pdf, "ordered"
+    if op == "set_index_repartition":
+        return tgt.set_index(col).repartition(npartitions=np_ or P + 1), pdf.set_index(col), "multiset"
+    if op == "set_index_loc":
+        rng = random.Random(st.get("r", 0))
+        vals = sorted(pd.unique(pdf[col]))
+        a, b = sorted((vals[rng.randrange(len(vals))], vals[rng.randrange(len(vals))]))
+        a, b = _plain(a), _plain(b)
+        return tgt.set_index(col).loc[a:b], pdf.set_index(col).sort_index().loc[a:b], "multiset"
+    if op == "unique":
+        return tgt[col].unique(split_out=np_), pd.Series(pd.unique(pdf[col]), name=col), "set"
+    if op == "drop_duplicates":
+        return (tgt.drop_duplicates(subset=[col], split_out=np_), pdf.drop_duplicates(subset=[col]),
+                "multiset" if pdf[col].is_unique else "keys:%s" % col)
+    if op == "merge":
+        col2 = "k_" + st["col2"]
+        if col2 == col or not pdf[col].is_unique or not pdf[col2].is_unique:
+            raise _Skip("merge needs two different unique key columns")
+        left, right = tgt.set_index(col)[["v"]], ddf2.set_index(col2)[["w"]]
+        exp = pdf.set_index(col)[["v"]].merge(pdf.set_index(col2)[["w"]], left_index=True, right_index=True, how=st["how"])
+        return left.merge(right, left_index=True, right_index=True, how=st["how"]), exp, "multiset"
+    raise _Skip("unknown op " + op)
+
+
+def _seq_evaluate(r, ev):
+    """one of the ways a user looks at a lazy result; -> the collection to check afterwards"""
+    if ev == "npartitions":
+        r.npartitions
+    elif ev == "divisions":
+        r.divisions
+    elif ev == "head":
+        r.head(3)
+    elif ev == "persist":
+        return r.persist(scheduler="sync")
+    elif ev == "optimize":
+        r.optimize()
+    elif ev == "repr":
+        repr(r)
+    elif ev == "compute":
+        r.compute(scheduler="sync")
+    elif ev == "len":
+        len(r)
+    return r
+
+
+def _seq_symptom(r, exp, how):
+    """the C41 invariants on one result, independent of dask's caches: divisions sorted, every partition inside its
+    interval (graph view), the cache-free min/max view (``clear_divisions().compute_current_divisions()``), values
+    equal pandas.  -> (symptom, message, known, npartitions, counters) ; symptom None when everything holds."""
+    import dask
+    import pandas as pd
+    from vf.gen import frames
+
+    known = bool(r.known_divisions)
+    divs = tuple(r.divisions)
+    npart = r.npartitions
+    gparts = list(dask.compute(*r.to_delayed(), scheduler="sync"))
+    info = {"known": known, "npartitions": npart, "views": 0}
+    shown = [repr(d) for d in divs][:12]
+    pshow = [[repr(x) for x in p.index[:8]] for p in gparts][:8]
+    tail = " (divisions %s, partitions %s)" % (shown, pshow)
+    if npart != len(divs) - 1:
+        return "npartitions-vs-divisions", "npartitions=%d, len(divisions)-1=%d%s" % (npart, len(divs) - 1, tail), info
+    if len(gparts) != npart:
+        return "partition-count-vs-divisions", "graph has %d partitions, %d announced%s" % (len(gparts), npart, tail), info
+    if known:
+        try:
+            bad = [i for i in range(len(divs) - 1) if divs[i] > divs[i + 1]]
+        except TypeError:
+            bad = []
+        if bad:
+            return "divisions-not-sorted", "divisions are not ascending%s" % tail, info
+        v = _bounds(divs, gparts)
+        if v:
+            return "index-outside-division-interval", v[1] + tail, info
+        # cache-free view: dask's documented recomputation of the divisions from the data (per-partition min/max)
+        if gparts and all(len(p) for p in gparts):
+            info["views"] = 1
+            try:
+                cur = r.clear_divisions().compute_current_divisions()
+            except ValueError as e:
+                return "partitions-not-in-index-order", "compute_current_divisions(): %s%s" % (str(e)[:200], tail), info
+            try:
+                off = [i for i in range(npart) if not (divs[i] <= cur[i] and (cur[i] < divs[i + 1] or (i == npart - 1 and cur[i] <= divs[i + 1])))]
+            except TypeError:
+                off = []
+            if len(cur) != len(divs) or off:
+                return ("current-divisions-outside-reported-divisions",
+                        "compute_current_divisions() of the cleared frame gives %r%s" % (cur, tail), info)
+    # ---- values
+    got = pd.concat(gparts) if gparts else r._meta
+    m = None
+    if how == "ordered":
+        m = frames.compare(got, exp, ordered=True, check_dtype=False)
+    elif how == "multiset":
+        m = frames.compare(got, exp, ordered=False, check_dtype=False)
+    elif how == "set":
+        a, b = sorted(got.tolist()), sorted(exp.tolist())
+        m = None if a == b else ("values", "unique values %r, pandas %r" % (a[:20], b[:20]))
+    elif how.startswith("keys:"):
+        c = how[5:]
+        a, b = sorted(got[c].tolist()), sorted(exp[c].tolist())
+        m = None if a == b else ("values", "kept keys %r, pandas %r" % (a[:20], b[:20]))
+    elif how.startswith("sorted-by:"):
+        _, c, d = how.split(":")
+        a, b = got[c].tolist(), exp[c].tolist()
+        if a != b:
+            sym = "order" if sorted(a) == sorted(b) else "values"
+            return sym, "column %s after sort_values(%s): %r, pandas %r%s" % (c, d, a[:24], b[:24], tail), info
+        m = frames.compare(got, exp, ordered=False, check_dtype=False)
+    if m:
+        return "values", m[1][:600] + tail, info
+    return None, "", info
+
+
+def _run_sequence(case, ctx, dd):
+    _private_tmp()
+    caches = _dask_caches()
+    for c in caches.values():
+        c.clear()                           # every CASE starts from clean caches (cases independent and replayable);
+    ctx.count("seq_cases")                 # nothing is cleared between the steps of a case
+    P = case["npart"]
+    pdf, build, lens = _seq_frame(case, dd)
+    ddf = build()
+    lru = caches.get("divisions_lru")
+    state = {"rows": len(pdf), "partition_lengths": lens, "kdtype": case["kdtype"], "index": case["index"],
+             "sequence": []}
+    earlier = []           # (column, variant) of the steps done so far
+    checked_known = 0
+    for st in case["steps"]:
+        st = dict(st)
+        if st["col"] == "@":
+            st["col"] = case["focus"]
+        variant = _seq_variant(st)
+        tgt = ddf if st.get("on") != "copy" else build()          # equal-token rebuilt copy
+        desc = "%s(%s%s) on %s, then .%s" % (variant, st["col"], "" if st.get("np") is None else ", np=%s" % st["np"],
+                                               st.get("on", "base"), st.get("ev", "none"))
+        before = set(lru.data) if lru is not None else set()
+        try:
+            r, exp, how = _seq_build(st, tgt, build(), pdf, P)
+        except _Skip:
+            ctx.count("steps_not_applicable")
+            continue
+        except NotImplementedError:
+            ctx.count("unsupported_steps")
+            continue
+        except Exception as e:  # noqa: BLE001
+            from vf.core.ctx import dask_frame
+
+            if dask_frame(e) is None:
+                ctx.count("steps_not_applicable")
+                continue
+            _seq_report(ctx, case, st, variant, "exception", e, state, earlier, dd, pdf, phase="construct")
+            break
+        state["sequence"].append(desc)
+        ctx.count("seq_steps")
+        ctx.op("seq:" + variant)
+        ctx.op("seq-eval:" + st.get("ev", "none"))
+        ctx.distinct("seq_variant_x_shape", [variant, st["col"]])
+        related = [v for c, v in earlier if c == st["col"]]
+        if related:
+            ctx.count("seq_steps_after_step_on_same_column")
+        if any(v != variant for v in related):
+            ctx.count("seq_steps_after_different_op_on_same_column")
+        try:
+            r2 = _seq_evaluate(r, st.get("ev", "none"))
+            sym, msg, info = _seq_symptom(r2, exp, how)
+        except NotImplementedError:
+            ctx.count("unsupported_steps")
+            continue
+        except Exception as e:  # noqa: BLE001
+            _seq_report(ctx, case, st, variant, "exception", e, state, earlier, dd, pdf, phase="evaluate")
+            break
+        if lru is not None:
+            after = set(lru.data)
+            if after - before:
+                ctx.count("seq_steps_filling_divisions_cache")
+            elif before and st["op"] in ("sort_values", "set_index", "set_index_repartition", "set_index_loc", "merge") \
+                    and st.get("form") not in ("divisions", "sorted", "sort-false"):
+                ctx.count("seq_steps_served_from_divisions_cache")
+        ctx.count("seq_values_compared")
+        ctx.count("seq_cache_free_views", info["views"])
+        if info["known"]:
+            ctx.count("seq_steps_known_divisions")
+            ctx.count("known:sequence")
+            ctx.count("stages_known_divisions")
+            ctx.distinct("known_stage_variants", "sequence:" + variant)
+            if info["npartitions"] >= 2:
+                checked_known += 1
+        else:
+            ctx.count("seq_steps_unknown_divisions")
+        ctx.count("stages")
+        if sym:
+            _seq_report(ctx, case, st, variant, sym, msg, state, earlier, dd, pdf, result=r)
+            break
+        earlier.append((st["col"], variant))
+    ctx.nontrivial = checked_known >= 1 and len(earlier) >= 2
+    ctx.sample = {"sequence": state["sequence"], "partition_lengths": lens}
+
+
+def _seq_report(ctx, case, st, variant, sym, what, state, earlier, dd, pdf, phase=None, result=None):
+    """A step of a sequence failed.  Run the same step ALONE on a frame whose expression names differ (one more
+    column), i.e. with nothing that earlier steps left behind applying to it: when it fails there too the finding
+    belongs to the operation (labelled like the single-pipeline families), otherwise to state leaking between
+    operations."""
+    from vf.core.ctx import exc_label, through_shim
+
+    if isinstance(what, BaseException):
+        if through_shim(what):
+            ctx.envlimited("%s: %s" % (type(what).__name__, what))
+            return
+        msg = "%s: %s (%s)" % (type(what).__name__, str(what)[:300], phase)
+        sym = "%s:%s" % (phase, exc_label(what))
+    else:
+        msg = what
+    alone = None
+    try:
+        pdf2, build2, _ = _seq_frame(case, dd, extra=True)
+        r, exp, how = _seq_build(st, build2(), build2(), pdf2, case["npart"])
+        if "zz" in getattr(exp, "columns", ()):
+            pass
+        alone = _seq_symptom(_seq_evaluate(r, st.get("ev", "none")), exp, how)[0]
+    except Exception as e:  # noqa: BLE001
+        alone = "exception:%s" % type(e).__name__
+    detail = dict(state, step=st, earlier_steps=["%s(%s)" % (v, c) for c, v in earlier], alone=alone)
+    stage = "%s:%s" % (st["op"], variant[variant.index("[") + 1:-1] if "[" in variant else "plain")
+    where = stage
+    if result is not None:
+        try:
+            where = _where(result, stage, True)
+        except Exception:  # noqa: BLE001
+            where = stage
+    if alone is not None and where.startswith("optimize:"):
+        # fails alone as well and some sub-expression reports other divisions than its optimised form has: the
+        # rewrite's finding, named like the pipeline families name it
+        ctx.violation(_glabel(where, sym), msg, stage=stage, **detail)
+    elif alone is None and earlier:
+        ctx.violation("sequence:%s:depends-on-earlier-operations:%s" % (variant, sym),
+                      "%s -- the same step alone on a differently named copy of the frame is fine; earlier "
+                      "operations in this process: %s" % (msg, detail["earlier_steps"]), where=where, **detail)
+    else:
+        ctx.violation("sequence:%s:%s" % (variant, sym), msg, **detail)
